@@ -531,16 +531,16 @@ func main() {
 			runOne(w)
 		}
 		root := vh.NewRand(int64(c.Rand.U64()))
-		for i, n := 0, c.N(90, 4000); i < n; i++ {
+		for i, n := 0, c.N(90, 1500); i < n; i++ {
 			r := root.Fork()
 			runOne(Replay{Kind: "table", Name: fmt.Sprintf("table-%d", i), Table: rh.GenTable(r, 4+r.Intn(14))})
 		}
-		for i, n := 0, c.N(70, 3000); i < n; i++ {
+		for i, n := 0, c.N(70, 1000); i < n; i++ {
 			r := root.Fork()
 			sc := rh.GenTransit(r, 6+r.Intn(24))
 			runOne(Replay{Kind: "transit", Name: fmt.Sprintf("transit-%d", i), Transit: &sc})
 		}
-		for i, n := 0, c.N(10, 400); i < n; i++ {
+		for i, n := 0, c.N(10, 150); i < n; i++ {
 			r := root.Fork()
 			kind := []string{"exit", "forward"}[i%2]
 			runOne(Replay{Kind: kind, Name: fmt.Sprintf("%s-%d", kind, i), MaxConns: 6, Book: rh.GenBook(r, 4+r.Intn(10), 5)})
